@@ -438,7 +438,10 @@ func mkRace(lines []string) RaceReport {
 				r.Repo = true
 			}
 			if section == 1 || section == 2 {
-				if !topSeen[section] {
+				// the innermost frame that is not the Go runtime / standard library itself (a racing map access
+				// shows up as runtime.mapaccess... on top of the code that does it)
+				stdlib := strings.Contains(file, "/go/src/") || strings.Contains(file, "/go-1.") || strings.HasPrefix(fn, "runtime.")
+				if !topSeen[section] && !stdlib {
 					topSeen[section] = true
 					if strings.HasPrefix(file, "/repo/") {
 						r.TopRepo = true
